@@ -11,8 +11,10 @@ if cmd == "show":
     shutil.rmtree(d, ignore_errors=True)
     os.makedirs("/dev/shm/rb", exist_ok=True)
     subprocess.run(["git", "clone", "-q", "--shared", "/repo", d], check=True)
-    src = seed + "/patch.orig.diff" if os.path.exists(seed + "/patch.orig.diff") else seed + "/patch.diff"
-    subprocess.run(["git", "apply", "--3way", "--whitespace=nowarn", src], cwd=d, capture_output=True)
+    # the current patch first (an earlier rebase already resolved the older conflicts); the original only if that cannot be merged at all
+    r = subprocess.run(["git", "apply", "--3way", "--whitespace=nowarn", seed + "/patch.diff"], cwd=d, capture_output=True)
+    if r.returncode and not subprocess.run(["git", "diff", "--name-only", "--diff-filter=U"], cwd=d, capture_output=True, text=True).stdout.strip() and os.path.exists(seed + "/patch.orig.diff"):
+        subprocess.run(["git", "apply", "--3way", "--whitespace=nowarn", seed + "/patch.orig.diff"], cwd=d, capture_output=True)
     files = subprocess.run(["git", "diff", "--name-only", "--diff-filter=U"], cwd=d, capture_output=True, text=True).stdout.split()
     for f in files:
         lines = open(os.path.join(d, f)).read().split("\n")
